@@ -140,6 +140,22 @@ class AtomicAnalysis:
       ff = FuncFlow.of(self.repo, fi)
       out: Dict[str, str] = {}
       for w in self.writers(ff):
+        # a path chosen by a conditional expression (tmp = p + '.tmp' if c else p): every alternative counts, and one in-place
+        # alternative makes the function in-place
+        alts = []
+        stack = list(ff.expand(w.path))
+        while stack:
+          e = stack.pop()
+          if isinstance(e, ast.IfExp):
+            stack += list(ff.expand(e.body)) + list(ff.expand(e.orelse))
+          else:
+            alts.append(e)
+        if len(alts) > 1:
+          for e in alts:
+            b2, s2 = split_suffix(ff, e)
+            pn2 = ff.param_of(b2) if b2 is not None else None
+            if pn2 is not None and s2 == '':
+              out[pn2] = 'in-place'
         base, suffix = split_suffix(ff, w.path)
         pname = ff.param_of(base) if base is not None else None
         if pname is None:
